@@ -1385,6 +1385,7 @@ main (int argc, char **argv)
 	  }
 	else
 	  die ("unknown op");
+	fflush (out);
       }
     if (in_case && !skipping)
       end_case (caseid);
